@@ -338,12 +338,28 @@ Qed.
 (* for every scoring scheme and every pair of non-empty sequences: whatever the aligner returns is a valid local
    alignment ending at the reported cell, and matches + mismatches + gaps is the number of columns *)
 Theorem align_pair_valid sc s1 s2 r :
-  s1 <> [] -> s2 <> [] -> align_pair false sc s1 s2 = Some r ->
+  align_pair false sc s1 s2 = Some r ->
   valid_alignment s1 s2 (r_row1 r) (r_row2 r) (r_start1 r) (r_start2 r) (r_end1 r) (r_end2 r) /\
   r_matches r + r_mismatches r + r_gaps r = Z.of_nat (length (r_row1 r)) /\
   r_length r = Z.of_nat (length (r_row1 r)).
 Proof.
-  intros N1 N2 H. unfold align_pair, align_pair_with in H. set (which := pick_matrix s1 s2) in *.
+  intros H. unfold align_pair, align_pair_with in H. set (which := pick_matrix s1 s2) in *.
+  assert (N1 : s1 <> []) by (destruct s1; [discriminate | discriminate]).
+  assert (N2 : s2 <> []) by (destruct s1; [discriminate|]; destruct s2; [discriminate | discriminate]).
+  assert (H' : match all_some (map (char_pos which) s1), all_some (map (char_pos which) s2) with
+               | Some p1, Some p2 =>
+                   let sc' := mkscheme (sc_use_matrix sc) (sc_match sc) (sc_mismatch sc) (sc_open sc) (sc_extend sc) in
+                   let f := fill sc' which (combine s1 p1) (combine s2 p2) in
+                   let l1 := Z.of_nat (length s1) in
+                   let l2 := Z.of_nat (length s2) in
+                   let '(mx, mi, mj) := (f_max f, f_maxi f, f_maxj f) in
+                   let st := backtrack (length s1 + length s2 + 2) false sc' f s1 s2 (mktb [] [] 0 0 0 mi mj) in
+                   Some (mkres mx (tb_r1 st) (tb_r2 st) (tb_i st + 1) (tb_j st + 1) mi mj
+                               (tb_match st) (tb_mis st) (tb_gaps st) (tb_match st + tb_mis st + tb_gaps st))
+               | _, _ => None
+               end = Some r).
+  { destruct s1 as [|a1 t1]; [congruence|]. destruct s2 as [|a2 t2]; [congruence|]. exact H. }
+  clear H. rename H' into H.
   destruct (all_some (map (char_pos which) s1)) as [p1|] eqn:E1; [|discriminate].
   destruct (all_some (map (char_pos which) s2)) as [p2|] eqn:E2; [|discriminate].
   apply all_some_map in E1 as [L1 G1]. apply all_some_map in E2 as [L2 G2].
